@@ -15,11 +15,12 @@ Inductive xop :=
                                                   account's entries whose kernel the node lacks *)
 
 (** owner::update_txs_via_kernel (step 2 of update_wallet_state): an outstanding entry of the
-    account that does not have both a debit and a credit, carries a kernel excess, and whose
+    account — not a reverted payment: that one is confirmed again through its output, never by
+    its kernel alone (a [fix:] for C18) — that does not have both a debit and a credit, carries a kernel excess, and whose
     kernel the node has, is marked confirmed *)
 Definition kernel_confirm (w : wallet) (parent : N) (missing : list N) : wallet :=
   with_log w (map (fun t =>
-    if (t_parent t =? parent) && outstanding t
+    if (t_parent t =? parent) && outstanding t && negb (ttype_eqb (t_type t) TReverted)
        && negb (negb (t_deb t =? 0) && negb (t_cred t =? 0))
        && t_excess t && negb (existsb (N.eqb (t_id t)) missing)
     then set_conf t true else t) (w_log w)).
